@@ -153,9 +153,25 @@ def R3_every_response_once(ctx):
                     order = b.dominates(r_.bb, w.bb)
                 else:
                     order = b.dominates(r_.bb, w.bb) and r_.bb != w.bb
-                ok = arg == resp and order and innermost_loop(b, w.bb) is None
-                # the closure runs once per query of the batch: its query argument is the element
-                ok = ok and clean(tm.operand(r_.args[0], r_.bb))[0] in ("arg", "field")
+                ok = arg == resp and order
+                lp = innermost_loop(b, w.bb)
+                qarg = clean(tm.operand(r_.args[0], r_.bb))
+                if lp is None:
+                    # the closure runs once per query of the batch: its query argument is the element
+                    ok = ok and qarg[0] in ("arg", "field")
+                else:
+                    # a loop over the queries of the chunk: one run and one write on every turn, the query is the loop element
+                    rows_ = [x for x in iteration_table(b, lp[0], stop_at_exit=True) if x.kind != "diverge"]
+                    d0 = clean(rows_[0].conds[0][0]) if rows_ and rows_[0].conds else None
+                    okl = d0 is not None and d0[0] == "discr" and d0[1][0] == "call" and re.search(r"::next$", d0[1][1]) is not None and qarg == d0[1]
+                    okl = okl and not [x for x in calls_in(d0[1]) if re.search(r"Iterator>?::(take|skip|filter|step_by|take_while|skip_while|filter_map|rev)$", x[1])]
+                    via_w = w.via if isinstance(w, VirtualCallSite) else w
+                    via_r = r_.via if isinstance(r_, VirtualCallSite) else r_
+                    for x in rows_:
+                        if x.kind == "back":
+                            okl = okl and sum(1 for bb_, k_, v_ in x.sites if bb_ == via_w.bb) >= 1 and sum(1 for bb_, k_, v_ in x.sites if bb_ == via_r.bb) >= 1 and len([1 for bb_, k_, v_ in x.sites if k_ == via_w.callee]) == 1 and len([1 for bb_, k_, v_ in x.sites if k_ == via_r.callee]) == 1
+                    okl = okl and innermost_loop(b, via_r.bb) == lp and outermost_loop(b, w.bb) == lp
+                    ok = ok and okl
             ctx.check(ok, "%s:write-each-response" % fn, "a query's response is not handed to write_response exactly once", b.where(), detail="write_response(run_single_query(q))")
         ctx.check(len(found) == 1, "%s:per-query-closure" % fn, "expected one per-query closure, found %d" % len(found), root.where())
     rb = F.need(APP + "CompassApp::run")
